@@ -38,7 +38,23 @@ func newCall(index int, name string, args []interface{}) (c call) {
 }
 
 func (c call) Value() (index int, name string, args []interface{}) {
-	return c[0].(int), c[1].(string), c[2].([]interface{})
+	// a call record comes from the peer: nothing about its shape can be taken for granted
+	// (and a client codec with ListTypeSlice delivers the arguments as a typed slice)
+	index, _ = c[0].(int)
+	name, _ = c[1].(string)
+	switch a := c[2].(type) {
+	case []interface{}:
+		args = a
+	case nil:
+	default:
+		if v := reflect.ValueOf(a); v.Kind() == reflect.Slice {
+			args = make([]interface{}, v.Len())
+			for i := range args {
+				args[i] = v.Index(i).Interface()
+			}
+		}
+	}
+	return
 }
 
 type callCache struct {
@@ -87,12 +103,15 @@ func newReturnValue(index int, result interface{}, err string) (r returnValue) {
 }
 
 func (r returnValue) Index() int {
-	return r[0].(int)
+	// a result record comes from the peer: a record without an integer index answers no call
+	if index, ok := r[0].(int); ok {
+		return index
+	}
+	return -1
 }
 
 func (r returnValue) Value(returnType []reflect.Type) ([]interface{}, error) {
-	err := r[2].(string)
-	if err != "" {
+	if err, _ := r[2].(string); err != "" {
 		return nil, errors.New(err)
 	}
 	n := len(returnType)
@@ -107,7 +126,22 @@ func (r returnValue) Value(returnType []reflect.Type) ([]interface{}, error) {
 		}
 	default:
 		results := make([]interface{}, n)
-		values := r[1].([]interface{})
+		var values []interface{}
+		switch v := r[1].(type) {
+		case []interface{}:
+			values = v
+		case nil:
+		default:
+			// one value for several declared results, or a typed slice (ListTypeSlice)
+			if rv := reflect.ValueOf(v); rv.Kind() == reflect.Slice {
+				values = make([]interface{}, rv.Len())
+				for i := range values {
+					values[i] = rv.Index(i).Interface()
+				}
+			} else {
+				values = []interface{}{v}
+			}
+		}
 		count := len(values)
 		for i := 0; i < n && i < count; i++ {
 			if result, err := io.Convert(values[i], returnType[i]); err != nil {
